@@ -18,6 +18,7 @@ structure Inv (s : St) : Prop where
   lockThr : ∀ i tid, s.lockedBy i = some tid → ∃ t, s.thr tid = some t ∧ t.fd = i ∧ inLock t.pc = true
   thrLock : ∀ tid t, s.thr tid = some t → inLock t.pc = true → s.lockedBy t.fd = some tid
   heldName : ∀ tid t, s.thr tid = some t → t.pc = .held → s.name = some t.fd
+  fin : ∀ tid t, s.thr tid = some t → (t.pc = .done → t.handle = false) ∧ (∀ k, t.pc ≠ .rerel k)
 
 theorem Inv.trans {s s' : St} {tid : Nat} {t t' : Thr} (h : Inv s) (ht : s.thr tid = some t)
     (hthr : s'.thr = upd s.thr tid (some t'))
@@ -26,14 +27,15 @@ theorem Inv.trans {s s' : St} {tid : Nat} {t t' : Thr} (h : Inv s) (ht : s.thr t
     (hmine : ∀ i, s'.lockedBy i = some tid → t'.fd = i ∧ inLock t'.pc = true)
     (hmine' : inLock t'.pc = true → s'.lockedBy t'.fd = some tid)
     (hname : s'.name = s.name ∨ (∀ j u, j ≠ tid → s.thr j = some u → u.pc ≠ .held))
-    (hheld : t'.pc = .held → s'.name = some t'.fd) : Inv s' := by
+    (hheld : t'.pc = .held → s'.name = some t'.fd)
+    (hfin : (t'.pc = .done → t'.handle = false) ∧ (∀ k, t'.pc ≠ .rerel k)) : Inv s' := by
   have hget : ∀ j u, s'.thr j = some u → (j = tid ∧ u = t') ∨ (j ≠ tid ∧ s.thr j = some u) := by
     intro j u hu
     rw [hthr] at hu
     by_cases hj : j = tid
     · subst hj; simp at hu; exact Or.inl ⟨rfl, hu.symm⟩
     · rw [upd_other _ _ _ _ hj] at hu; exact Or.inr ⟨hj, hu⟩
-  refine ⟨?_, ?_, ?_⟩
+  refine ⟨?_, ?_, ?_, ?_⟩
   · intro i j hij
     by_cases hj : j = tid
     · subst hj
@@ -59,9 +61,13 @@ theorem Inv.trans {s s' : St} {tid : Nat} {t t' : Thr} (h : Inv s) (ht : s.thr t
     · rcases hname with e | e
       · rw [e]; exact h.heldName j u hu' hp
       · exact absurd hp (e j u hj hu')
+  · intro j u hu
+    rcases hget j u hu with ⟨rfl, rfl⟩ | ⟨hj, hu'⟩
+    · exact hfin
+    · exact h.fin j u hu'
 
 theorem Inv.init : Inv initSt := by
-  refine ⟨?_, ?_, ?_⟩ <;> (intros; simp_all [initSt])
+  refine ⟨?_, ?_, ?_, ?_⟩ <;> (intros; simp_all [initSt])
 
 /-- a thread that holds no flock owns no inode -/
 theorem Inv.notMine {s : St} (h : Inv s) {tid : Nat} {t : Thr} (ht : s.thr tid = some t)
@@ -77,9 +83,39 @@ theorem Inv.mineIs {s : St} (h : Inv s) {tid : Nat} {t : Thr} (ht : s.thr tid = 
   obtain ⟨u, hu, a, _⟩ := h.lockThr i tid hi
   rw [ht] at hu; cases hu; exact a
 
+/-- the record of the stepping thread after effect number `e` of Release -/
+def relThr (c : DLCfg) (t : Thr) (eff : Eff) (e : Nat) : Thr :=
+  { t with
+    pc := if (!decide (e + 1 < (effects c.releaseOrder).length)) = true then PC.done else PC.rel e,
+    failUnlink := if eff = .remove then false else t.failUnlink,
+    err := t.err || (decide (eff = .remove) && t.failUnlink),
+    handle := if (!decide (e + 1 < (effects c.releaseOrder).length)) = true then
+        (if c.releaseClearsOnError then false else (t.err || (decide (eff = .remove) && t.failUnlink)))
+      else t.handle }
+
+theorem relStep_ok (c : DLCfg) (s : St) (tid : Nat) (t : Thr) (e : Nat) (eff : Eff)
+    (he : (effects c.releaseOrder)[e]? = some eff) (hok : eff ≠ .remove ∨ t.failUnlink = false) :
+    relStep c s tid t e =
+      some { (applyEff s tid t eff) with thr := upd (applyEff s tid t eff).thr tid (some (relThr c t eff e)) } := by
+  have hf : (decide (eff = .remove) && t.failUnlink) = false := by
+    rcases hok with h | h
+    · simp [h]
+    · simp [h]
+  unfold relStep relThr
+  rw [he]
+  simp only [hf, Bool.false_eq_true, if_false]
+
+theorem relStep_fail (c : DLCfg) (s : St) (tid : Nat) (t : Thr) (e : Nat)
+    (he : (effects c.releaseOrder)[e]? = some .remove) (hf : t.failUnlink = true) :
+    relStep c s tid t e = some { s with thr := upd s.thr tid (some (relThr c t .remove e)) } := by
+  unfold relStep relThr
+  rw [he]
+  simp only [hf, decide_true, Bool.and_self, if_true]
+
 theorem Inv.step_thr {c : DLCfg} (hc : c.Good) {s s' : St} {tid : Nat} {t : Thr} (h : Inv s)
     (ht : s.thr tid = some t) (hs : stepThr c s tid t = some s') : Inv s' := by
-  obtain ⟨hro, hrc⟩ := hc
+  obtain ⟨hro, hrc, hce⟩ := hc
+  have hfin := h.fin tid t ht
   unfold stepThr at hs
   cases hp : t.pc <;> simp only [hp] at hs
   · -- open
@@ -88,11 +124,11 @@ theorem Inv.step_thr {c : DLCfg} (hc : c.Good) {s s' : St} {tid : Nat} {t : Thr}
     | some i =>
       simp only [hn] at hs; cases hs
       refine Inv.trans h ht rfl (fun _ => Or.inl rfl) (fun i hi => absurd hi (hnm i))
-        (by simp [inLock]) (Or.inl hn.symm) (by simp)
+        (by simp [inLock]) (Or.inl hn.symm) (by simp) (by simp)
     | none =>
       simp only [hn] at hs; cases hs
       refine Inv.trans h ht rfl (fun _ => Or.inl rfl) (fun i hi => absurd hi (hnm i))
-        (by simp [inLock]) (Or.inr ?_) (by simp)
+        (by simp [inLock]) (Or.inr ?_) (by simp) (by simp)
       intro j u _ hu hheld
       have := h.heldName j u hu hheld
       rw [hn] at this; cases this
@@ -101,7 +137,7 @@ theorem Inv.step_thr {c : DLCfg} (hc : c.Good) {s s' : St} {tid : Nat} {t : Thr}
     cases hl : s.lockedBy t.fd with
     | none =>
       simp only [hl] at hs; cases hs
-      refine Inv.trans h ht rfl ?_ ?_ ?_ (Or.inl rfl) (by simp)
+      refine Inv.trans h ht rfl ?_ ?_ ?_ (Or.inl rfl) (by simp) (by simp)
       · intro i
         by_cases hi : i = t.fd
         · subst hi; right; exact ⟨Or.inl hl, Or.inr (by simp)⟩
@@ -116,12 +152,12 @@ theorem Inv.step_thr {c : DLCfg} (hc : c.Good) {s s' : St} {tid : Nat} {t : Thr}
     | some u =>
       simp only [hl] at hs; cases hs
       exact Inv.trans h ht rfl (fun _ => Or.inl rfl) (fun i hi => absurd hi (hnm i))
-        (by simp [inLock]) (Or.inl rfl) (by simp)
+        (by simp [inLock]) (Or.inl rfl) (by simp) (by simp)
   · -- recheck
     have hmine := h.thrLock tid t ht (by simp [hp, inLock])
     split at hs
     · cases hs
-      refine Inv.trans h ht rfl ?_ ?_ (by simp [inLock]) (Or.inl rfl) (by simp)
+      refine Inv.trans h ht rfl ?_ ?_ (by simp [inLock]) (Or.inl rfl) (by simp) (by simp)
       · intro i
         by_cases hi : i = t.fd
         · subst hi; right; exact ⟨Or.inr hmine, Or.inl (by simp)⟩
@@ -140,29 +176,41 @@ theorem Inv.step_thr {c : DLCfg} (hc : c.Good) {s s' : St} {tid : Nat} {t : Thr}
         apply Classical.byContradiction
         intro hne; exact hcond ⟨hrc, hne⟩
       exact Inv.trans h ht rfl (fun _ => Or.inl rfl) (fun i hi => ⟨h.mineIs ht i hi, by simp [inLock]⟩)
-        (fun _ => hmine) (Or.inl rfl) (fun _ => hname)
-  · -- held: first effect of Release = remove
+        (fun _ => hmine) (Or.inl rfl) (fun _ => hname) (by simp)
+  · -- held: effect 0 of Release = remove (it may fail: the name then stays)
     have hmine := h.thrLock tid t ht (by simp [hp, inLock])
     have hnm := h.heldName tid t ht hp
-    simp only [relStep, hro, effects] at hs
-    cases hs
-    refine Inv.trans h ht rfl (fun _ => Or.inl rfl) (fun i hi => ⟨h.mineIs ht i hi, by simp [inLock]⟩)
-      (fun _ => hmine) (Or.inr ?_) (by simp)
-    intro j u hj hu hheld
-    have h1 := h.heldName j u hu hheld
-    rw [hnm] at h1
-    have h2 := h.thrLock j u hu (by simp [hheld, inLock])
-    rw [← Option.some.inj h1, hmine] at h2
-    exact hj (Option.some.inj h2).symm
+    have hpc : (relThr c t .remove 0).pc = .rel 0 := by simp [relThr, hro, effects]
+    have hfd : (relThr c t .remove 0).fd = t.fd := rfl
+    have hothers : ∀ j u, j ≠ tid → s.thr j = some u → u.pc ≠ .held := by
+      intro j u hj hu hheld
+      have h1 := h.heldName j u hu hheld
+      rw [hnm] at h1
+      have h2 := h.thrLock j u hu (by simp [hheld, inLock])
+      rw [← Option.some.inj h1, hmine] at h2
+      exact hj (Option.some.inj h2).symm
+    cases hfu : t.failUnlink
+    · rw [relStep_ok c s tid t 0 .remove (by simp [hro, effects]) (Or.inr hfu)] at hs
+      cases hs
+      exact Inv.trans (t' := relThr c t .remove 0) h ht rfl (fun _ => Or.inl rfl)
+        (fun i hi => ⟨hfd ▸ h.mineIs ht i hi, by rw [hpc]; simp [inLock]⟩)
+        (fun _ => hfd ▸ hmine) (Or.inr hothers) (by rw [hpc]; simp) (by rw [hpc]; simp)
+    · rw [relStep_fail c s tid t 0 (by simp [hro, effects]) hfu] at hs
+      cases hs
+      exact Inv.trans (t' := relThr c t .remove 0) h ht rfl (fun _ => Or.inl rfl)
+        (fun i hi => ⟨hfd ▸ h.mineIs ht i hi, by rw [hpc]; simp [inLock]⟩)
+        (fun _ => hfd ▸ hmine) (Or.inl rfl) (by rw [hpc]; simp) (by rw [hpc]; simp)
   · -- rel k: effect k+1
     rename_i k
     cases k with
     | zero =>
       -- unlock
       have hmine := h.thrLock tid t ht (by simp [hp, inLock])
-      simp only [relStep, hro, effects] at hs
+      rw [relStep_ok c s tid t 1 .unlock (by simp [hro, effects]) (Or.inl (by simp))] at hs
+      have hpc : (relThr c t .unlock 1).pc = .rel 1 := by simp [relThr, hro, effects]
+      have hfd : (relThr c t .unlock 1).fd = t.fd := rfl
       cases hs
-      refine Inv.trans h ht rfl ?_ ?_ (by simp [inLock]) (Or.inl rfl) (by simp)
+      refine Inv.trans (t' := relThr c t .unlock 1) h ht rfl ?_ ?_ (by rw [hpc]; simp [inLock]) (Or.inl rfl) (by rw [hpc]; simp) (by rw [hpc]; simp)
       · intro i
         by_cases hi : i = t.fd
         · subst hi; right; exact ⟨Or.inr hmine, Or.inl (by simp [applyEff])⟩
@@ -178,19 +226,51 @@ theorem Inv.step_thr {c : DLCfg} (hc : c.Good) {s s' : St} {tid : Nat} {t : Thr}
     | succ k =>
       cases k with
       | zero =>
-        -- close: the lock is already gone
+        -- close: the lock is already gone; Release returns and clears its handle
         have hnm := h.notMine ht (by simp [hp, inLock])
-        simp only [relStep, hro, effects] at hs
+        rw [relStep_ok c s tid t 2 .close (by simp [hro, effects]) (Or.inl (by simp))] at hs
+        have hpc : (relThr c t .close 2).pc = .done := by simp [relThr, hro, effects]
+        have hh : (relThr c t .close 2).handle = false := by simp [relThr, hro, effects, hce]
         cases hs
         have hcl : applyEff s tid t .close = s := by
           simp [applyEff, hnm t.fd]
         rw [hcl]
-        exact Inv.trans h ht rfl (fun _ => Or.inl rfl) (fun i hi => absurd hi (hnm i))
-          (by simp [inLock]) (Or.inl rfl) (by simp)
+        exact Inv.trans (t' := relThr c t .close 2) h ht rfl (fun _ => Or.inl rfl) (fun i hi => absurd hi (hnm i))
+          (by rw [hpc]; simp [inLock]) (Or.inl rfl) (by rw [hpc]; simp) ⟨fun _ => hh, by rw [hpc]; simp⟩
       | succ k =>
         simp [relStep, hro, effects] at hs
   · cases hs
-  · cases hs
+  · -- done: Release called again; the handle was cleared, nothing happens
+    have hh := hfin.1 hp
+    simp only [hh, Bool.false_eq_true, if_false] at hs
+    cases hs
+    exact h
+  · -- rerel: unreachable
+    rename_i k
+    exact absurd hp (hfin.2 k)
+
+theorem Inv.spawn {s : St} (hi : Inv s) (tid : Nat) (t0 : Thr) (h0 : t0.pc = .open_)
+    (hfree : s.thr tid = none) : Inv { s with thr := upd s.thr tid (some t0) } := by
+  refine ⟨?_, ?_, ?_, ?_⟩
+  · intro i j hij
+    obtain ⟨u, hu, a, b⟩ := hi.lockThr i j hij
+    have hj : j ≠ tid := fun e => by rw [e, hfree] at hu; cases hu
+    exact ⟨u, by show upd s.thr tid _ j = some u; rw [upd_other _ _ _ _ hj]; exact hu, a, b⟩
+  · intro j u hu hin
+    have hu' : upd s.thr tid (some t0) j = some u := hu
+    by_cases hj : j = tid
+    · subst hj; simp at hu'; subst hu'; simp [h0, inLock] at hin
+    · rw [upd_other _ _ _ _ hj] at hu'; exact hi.thrLock j u hu' hin
+  · intro j u hu hp
+    have hu' : upd s.thr tid (some t0) j = some u := hu
+    by_cases hj : j = tid
+    · subst hj; simp at hu'; subst hu'; rw [h0] at hp; cases hp
+    · rw [upd_other _ _ _ _ hj] at hu'; exact hi.heldName j u hu' hp
+  · intro j u hu
+    have hu' : upd s.thr tid (some t0) j = some u := hu
+    by_cases hj : j = tid
+    · subst hj; simp at hu'; subst hu'; rw [h0]; simp
+    · rw [upd_other _ _ _ _ hj] at hu'; exact hi.fin j u hu'
 
 theorem Inv.reachable {c : DLCfg} (hc : c.Good) (s : St) (hr : Reachable (sys c) s) : Inv s := by
   refine Reachable.invariant (S := sys c) Inv ?_ ?_ s hr
@@ -201,23 +281,12 @@ theorem Inv.reachable {c : DLCfg} (hc : c.Good) (s : St) (hr : Reachable (sys c)
     | spawn tid =>
       simp only [DirLock.step] at hs
       split at hs
-      · rename_i hfree
-        cases hs
-        refine ⟨?_, ?_, ?_⟩
-        · intro i j hij
-          obtain ⟨u, hu, a, b⟩ := hi.lockThr i j hij
-          have hj : j ≠ tid := fun e => by rw [e, hfree] at hu; cases hu
-          exact ⟨u, by show upd s.thr tid _ j = some u; rw [upd_other _ _ _ _ hj]; exact hu, a, b⟩
-        · intro j u hu hin
-          have hu' : upd s.thr tid (some ({ pc := .open_ } : Thr)) j = some u := hu
-          by_cases hj : j = tid
-          · subst hj; simp at hu'; subst hu'; simp [inLock] at hin
-          · rw [upd_other _ _ _ _ hj] at hu'; exact hi.thrLock j u hu' hin
-        · intro j u hu hp
-          have hu' : upd s.thr tid (some ({ pc := .open_ } : Thr)) j = some u := hu
-          by_cases hj : j = tid
-          · subst hj; simp at hu'; subst hu'; simp at hp
-          · rw [upd_other _ _ _ _ hj] at hu'; exact hi.heldName j u hu' hp
+      · rename_i hfree; cases hs; exact Inv.spawn hi tid _ rfl hfree
+      · cases hs
+    | spawnF tid =>
+      simp only [DirLock.step] at hs
+      split at hs
+      · rename_i hfree; cases hs; exact Inv.spawn hi tid _ rfl hfree
       · cases hs
     | run tid =>
       simp only [DirLock.step] at hs
